@@ -152,7 +152,10 @@ var versionPool = map[string][]string{
 		"v0.1.1-rc.1", "v0.1.1", "v0.2.0", "v0.9.0", "v0.10.0", "v0.10.1-0", "v0.10.1-0.a", "v0.10.1-a.0", "v0.10.1-1", "v0.10.1-a-b", "v0.10.1-a",
 		// identifiers that are alphanumeric as a whole but end in digits (lexical, not "natural", order), hyphens inside identifiers
 		"v0.3.0-rc9", "v0.3.0-rc10", "v0.3.0-rc1b", "v0.3.0-2024-9", "v0.3.0-2024-10", "v0.3.0-9", "v0.3.0-10", "v0.3.0-9a", "v0.3.0"},
-	"v1": {"v1.0.0-rc.1", "v1.0.0", "v1.2.0", "v1.2.1-pre.9", "v1.2.1-pre.10", "v1.2.1-pre9", "v1.2.1-pre10", "v1.2.1", "v1.10.0", "v1.9.9"},
+	"v1": {"v1.0.0-rc.1", "v1.0.0", "v1.2.0", "v1.2.1-pre.9", "v1.2.1-pre.10", "v1.2.1-pre9", "v1.2.1-pre10", "v1.2.1", "v1.10.0", "v1.9.9",
+		// numeric fields beyond 64 bits (timestamps in microseconds, say): SemVer has no upper bound
+		"v1.18446744073709551616.0", "v1.18446744073709551617.0", "v1.3.0-18446744073709551616", "v1.3.0-18446744073709551618", "v1.3.0-99999999999999999999",
+		"v1.3.0"},
 	"v2": {"v2.0.0", "v2.0.1-0", "v2.0.1", "v2.1.0-x.y", "v2.1.0-x", "v2.1.0", "v2.1.0-x-1", "v2.1.0-x-10", "v2.1.0-x-2"},
 }
 
@@ -302,8 +305,19 @@ func gen(seed uint64, tier string, idx int) sim.CaseI {
 // ---------- independent SemVer 2.0 comparator (oracle) ----------
 
 type sv struct {
-	num [3]uint64
+	num [3]string // digits; SemVer puts no bound on numeric fields, so they are never converted
 	pre []string
+}
+
+// cmpDigits compares two numbers written without leading zeros.
+func cmpDigits(a, b string) int {
+	if len(a) != len(b) {
+		if len(a) < len(b) {
+			return -1
+		}
+		return 1
+	}
+	return strings.Compare(a, b)
 }
 
 func parseSV(v string) sv {
@@ -319,7 +333,7 @@ func parseSV(v string) sv {
 	}
 	for i, f := range strings.Split(core, ".") {
 		if i < 3 {
-			s.num[i], _ = strconv.ParseUint(f, 10, 64)
+			s.num[i] = f
 		}
 	}
 	return s
@@ -354,11 +368,8 @@ func cmpSV(a, b string) int {
 	}
 	x, y := parseSV(a), parseSV(b)
 	for i := 0; i < 3; i++ {
-		if x.num[i] != y.num[i] {
-			if x.num[i] < y.num[i] {
-				return -1
-			}
-			return 1
+		if c := cmpDigits(x.num[i], y.num[i]); c != 0 {
+			return c
 		}
 	}
 	if len(x.pre) == 0 && len(y.pre) == 0 {
@@ -378,12 +389,7 @@ func cmpSV(a, b string) int {
 		pn, qn := isNum(p), isNum(q)
 		switch {
 		case pn && qn:
-			pi, _ := strconv.ParseUint(p, 10, 64)
-			qi, _ := strconv.ParseUint(q, 10, 64)
-			if pi < qi {
-				return -1
-			}
-			return 1
+			return cmpDigits(p, q)
 		case pn:
 			return -1
 		case qn:
